@@ -151,6 +151,39 @@ NEEDS = {
              'history: two crystals in one process sharing an equal group operation with the same site label on different special positions'),
     'C34b': ('makeTSclusters (vacancy branch): forward orbit appended before the reverse clusters are united into a new set',
              'vacancy sampler with TS clusters whose reverse is not a symmetry image of the forward cluster (range beyond first neighbours, low symmetry)'),
+    # third wave (a mechanism and location different from both earlier changes was requested)
+    'C05c': ('_symmetricandescaperates builds the configuration energy with bFS[vacancy set] instead of bFS[solute set]',
+             '>= 2 Wyckoff sets with different solute site energies and an exchange jump joining them (default algorithm)'),
+    'C07c': ('tags2preene: omega0 data applied after the LIMB back-fill',
+             'tag dictionary with non-default omega0 data and at least one untagged omega1/omega2 class'),
+    'C08c': ('Lij selects the large-omega2 algorithm by the absolute exchange rate instead of G.omega2',
+             'exchange/bare ratio above 1e9 while every absolute rate is small (all rates x 1e-9)'),
+    'C11c': ('generateJumpGroupOps: reversed match never tried when both end points have the same index',
+             'network with i -> i jumps whose reversal is not in the site stabiliser (P1 / P-1, polar single-site cells, long hcp in-plane jump)'),
+    'C12c': ('Interstitial.__init__ builds invmap by a flat comprehension over the site list',
+             'site list whose flattened order is not 0..N-1 (interleaved sets or user order) with different data per set'),
+    'C13c': ('Taylor3D.loadhdf5 collects terms in a dict keyed on n alone',
+             'save / reload of an expansion with several (n, l) terms of equal n (separated expansions, GF Taylor tables)'),
+    'C14c': ('Lij: on a cache miss the returned L0vv is the array just stored in the cache',
+             'history: first evaluation for a vacancy input, in-place edit of the returned L0vv, second evaluation'),
+    'C20c': ('shared helper for the vectors perpendicular to an axis: wrong index in the near-z branch',
+             'site operation whose axis / mirror normal has |n_z| >= 0.75, is not z and has n_x != n_y (crystals in rotated Cartesian frames)'),
+    'C22c': ('fullkptmesh prefilter radius from the reciprocal basis vectors instead of the zone-face vectors',
+             'unreduced cell (noreduce=True) whose shortest reciprocal vector is a combination of the basis vectors'),
+    'C24c': ('StarSet.__iadd__ skips every sum with R = 0, not only true zero states',
+             '>= 3 sites per cell and a same-cell pair of distinct sites not already in the larger addend'),
+    'C27c': ('Supercell.gengroup filters the operations by a mask but not the array of supercell rotations',
+             'supercell matrix that keeps only part of the point group (1x1x2, 2x2x3 ...)'),
+    'C28c': ('POSCAR_occ (EMPTY_SUPER) vacates only unlisted sites after placing the listed atoms',
+             'history: POSCAR read into an already occupied supercell whose kept species were in a different order'),
+    'C30c': ('supercelltar normalises transmapping tuples by stripping None and re-padding at the end',
+             'transition whose initial end point is unmapped while the final one is mapped (symmetry-breaking or small supercells)'),
+    'C31c': ('makeclusters extends one representative per orbit and only with sites that sort last',
+             'crystal whose symmetry permutes sites within the cell (>= 3 equivalent sites; hcp with two shells at order 4)'),
+    'C33c': ('MonteCarloSampler.E() caches the energy; start() does not clear the cache',
+             'history: start, E(), start with another occupation, E() before any update'),
+    'C34c': ('jumpnetworkevaluator_vacancy reads the spectator environment of TS clusters around cell 0 instead of around the vacancy',
+             'vacancy in a cell with R != 0, non-uniform spectators, TS clusters containing spectator sites'),
 }
 
 
